@@ -160,6 +160,33 @@ func VH_c18_gomap_of_ptr() {
 	check(clone.GoMap(gi, clone.Ptr(lz(gi))), mp, "GoMap(Given,Ptr)")
 }
 
+// keys are cloned too: a key type that holds a pointer must not be shared
+func VH_c18_gomap_ptr_keys() {
+	zz.Config("mapperm", 0)
+	var mp map[*int]int
+	if zz.Bool("mp.nonnil") {
+		k := zz.Int("k")
+		mp = map[*int]int{&k: zz.Int("v")}
+	}
+	check(clone.GoMap(clone.Ptr(lz(gi)), gi), mp, "GoMap(Ptr,Given)")
+}
+
+type pkey struct {
+	p *int
+	n int
+}
+
+func VH_c18_gomap_struct_keys() {
+	zz.Config("mapperm", 0)
+	k := zz.Int("k")
+	mp := map[pkey][]int{{&k, zz.Int("n")}: mkSliceS("a")}
+	ck := clone.Generic(fp.Generic[pkey, fp.Tuple2[*int, int]]{
+		To:   func(x pkey) fp.Tuple2[*int, int] { return as.Tuple2(x.p, x.n) },
+		From: func(t fp.Tuple2[*int, int]) pkey { return pkey{t.I1, t.I2} },
+	}, clone.Tuple2(clone.Ptr(lz(gi)), gi))
+	check(clone.GoMap(ck, clone.Slice(gi)), mp, "GoMap(Generic(Ptr,Given),Slice)")
+}
+
 func VH_c18_tuple2_of_refs() {
 	t := as.Tuple2(mkSliceS("a"), mkPtrInt("p"))
 	check(clone.Tuple2(clone.Slice(gi), clone.Ptr(lz(gi))), t, "Tuple2(Slice,Ptr)")
